@@ -528,6 +528,15 @@ def run(ctx):
     collision_generations(ctx, uniq, osets, traces)
     graph_generations(ctx, traces)
     cross_package_generations(ctx, traces)
+    # names that end up EMPTY after cleaning next to names that are already the safe replacement ("value"): in every run
+    en = "".join(f'<xs:enumeration value="{v}"/>' for v in ["", "value", "VALUE", " ", "_", "Value"])
+    empty_xsd = ('<xs:schema xmlns:xs="http://www.w3.org/2001/XMLSchema" targetNamespace="urn:h" xmlns:t="urn:h" elementFormDefault="qualified">'
+                 f'<xs:simpleType name="E"><xs:restriction base="xs:string">{en}</xs:restriction></xs:simpleType>'
+                 '<xs:element name="root"><xs:complexType><xs:sequence><xs:element name="value" type="t:E"/><xs:element name="_" type="xs:int" minOccurs="0"/>'
+                 '<xs:element name="Value" type="xs:int" minOccurs="0"/></xs:sequence><xs:attribute name="value" type="xs:int"/><xs:attribute name="_" type="xs:int"/>'
+                 '</xs:complexType></xs:element></xs:schema>')
+    for k, (oname, opts, mut) in enumerate(osets[:3]):
+        generation_case(ctx, "xsd", {"h.xsd": empty_xsd}, ["h.xsd"], oname, opts, mut, traces, f"empty-names-{k}", must_generate=True)
     # the finding F47 is exercised by its reproducer in every run (and its counterpart, the same key naming a VALUE)
     generation_case(ctx, "json-sample", {"h.json": '{"a\\nb": {"k": 1}}'}, ["h.json"], "namespaces-camel", osets[5][1], osets[5][2], traces, "f47")
     generation_case(ctx, "json-sample", {"h.json": '{"a\\nb": 1, "c\\"d": [2]}'}, ["h.json"], "namespaces-camel", osets[5][1], osets[5][2], traces, "f47-ok")
